@@ -267,7 +267,8 @@ pub fn conclude(root: &str, meta: &Meta, tier: Tier, seed: u64, wall: f64, rep: 
         "completed_subspaces": rep.completed,
     });
     if meta.level == "model_checking" {
-        coverage["states"] = json!(rep.states);
+        let states = if rep.states > 0 { rep.states } else { distinct };
+        coverage["states"] = json!(states);
         coverage["transitions"] = json!(rep.transitions);
         coverage["traces_validated_against_impl"] = json!(rep.traces_validated);
     }
